@@ -236,6 +236,65 @@ Section AddrTextProofs.
     unfold validate_checksum. rewrite list_eqb_refl. cbn [bind Ok]. rewrite Hv. reflexivity.
   Qed.
 
+  (* Nimiq *)
+  Hypothesis b32_enc_in_alph : forall al d s, b32_enc_nopad (Some al) d = Ok s -> forallb (fun c => memb c al) s = true.
+  Hypothesis b32_enc_len20 : forall al d s, length d = 20%nat -> b32_enc_nopad (Some al) d = Ok s -> length s = 32%nat.
+
+  Lemma nim_groups_filter fuel : forall s, (length s <= fuel)%nat -> forallb (fun c => negb (c =? 32)) s = true ->
+    filter (fun c => negb (c =? 32)) (nim_groups fuel s) = s.
+  Proof.
+    assert (F : forall s, forallb (fun c => negb (c =? 32)) s = true -> filter (fun c => negb (c =? 32)) s = s).
+    { induction s as [|c s IH]; simpl; [reflexivity|]. intros H. apply andb_true_iff in H. destruct H as [H1 H2].
+      rewrite H1. f_equal. auto. }
+    induction fuel as [|f IH]; intros s L H; cbn [nim_groups]; [apply F; exact H|].
+    destruct (Nat.leb_spec (length s) nim_group_len) as [|G]; [apply F; exact H|].
+    rewrite filter_app. cbn [app filter]. rewrite N.eqb_refl. cbn [negb].
+    rewrite <- (firstn_skipn nim_group_len s) in H. rewrite forallb_app in H. apply andb_true_iff in H.
+    destruct H as [H1 H2]. rewrite (F _ H1), IH; [apply firstn_skipn| |exact H2].
+    rewrite skipn_length. assert (0 < nim_group_len)%nat by (vm_compute; lia). lia.
+  Qed.
+
+  Lemma alph_no_space s : forallb (fun c => memb c nim_alphabet) s = true -> forallb (fun c => negb (c =? 32)) s = true.
+  Proof.
+    induction s as [|c s IH]; simpl; [reflexivity|]. intros H. apply andb_true_iff in H. destruct H as [H1 H2].
+    rewrite IH by exact H2. rewrite andb_true_r.
+    destruct (N.eqb_spec c 32) as [->|]; [|reflexivity]. vm_compute in H1. discriminate.
+  Qed.
+
+  Theorem nim_decode_encode pub s : nim_encode blake2b b32_enc_nopad pub = Ok s ->
+    nim_decode b32_dec s = Ok (firstn nim_hash_len (blake2b blake2b256_len pub)).
+  Proof.
+    unfold nim_encode. set (h := firstn nim_hash_len (blake2b blake2b256_len pub)).
+    destruct (b32_enc_nopad (Some nim_alphabet) h) as [e|] eqn:E; cbn [bind Ok]; [|discriminate].
+    intros H. assert (Hs : s = nim_prefix ++ nim_checksum e ++ [32] ++ nim_groups (length e) e) by (unfold Ok in H; congruence).
+    subst s. clear H.
+    pose proof (b32_enc_in_alph _ _ _ E) as HA.
+    assert (Hh : length h = 20%nat) by (unfold h; rewrite firstn_length, b2b_len; reflexivity).
+    pose proof (b32_enc_len20 _ _ _ Hh E) as HL.
+    unfold nim_decode.
+    assert (Fl : filter (fun c => negb (c =? 32)) (nim_prefix ++ nim_checksum e ++ [32] ++ nim_groups (length e) e)
+                 = nim_prefix ++ nim_checksum e ++ e).
+    { rewrite !filter_app. rewrite nim_groups_filter; [|lia|apply alph_no_space; exact HA].
+      assert (P1 : filter (fun c => negb (c =? 32)) nim_prefix = nim_prefix) by (vm_compute; reflexivity).
+      assert (P2 : filter (fun c => negb (c =? 32)) [32] = []) by (vm_compute; reflexivity).
+      rewrite P1, P2. cbn [app]. f_equal. f_equal.
+      unfold nim_checksum. cbn [filter].
+      assert (D : forall x, (48 + x =? 32) = false).
+      { intros x. apply N.eqb_neq. intro Hc. pose proof (N.le_add_r 48 x) as P. rewrite Hc in P.
+        apply N.leb_le in P. vm_compute in P. discriminate. }
+      rewrite !D. reflexivity. }
+    rewrite Fl. rewrite remove_prefix_app. cbn [bind Ok].
+    assert (Lck : length (nim_checksum e) = nim_ck_enc_len) by reflexivity.
+    rewrite validate_length_ok by (rewrite app_length, Lck, HL; reflexivity). cbn [bind Ok].
+    assert (F1 : firstn nim_ck_enc_len (nim_checksum e ++ e) = nim_checksum e).
+    { rewrite <- Lck. rewrite firstn_app, Nat.sub_diag, firstn_all, firstn_O, app_nil_r. reflexivity. }
+    assert (S1 : skipn nim_ck_enc_len (nim_checksum e ++ e) = e).
+    { rewrite <- Lck. rewrite skipn_app, Nat.sub_diag, skipn_all. reflexivity. }
+    rewrite F1, S1.
+    rewrite HA. cbn [negb]. unfold validate_checksum. rewrite list_eqb_refl. cbn [bind Ok].
+    apply (b32_rt _ _ _ E).
+  Qed.
+
   (* SS58 *)
   Theorem substrate_decode_encode curve fmt pub s : valid_pub curve pub = true ->
     substrate_encode ss58_enc fmt pub = Ok s ->
